@@ -251,6 +251,9 @@ func graphs(quick bool) []trav.GraphSpec {
 			out = append(out, trav.GraphSpec{Tree: t, Cuts: cuts})
 		}
 	}
+	for _, t := range trav.GraphTrees(3, []ref.Val{ref.Null(), ref.Bool(false)}) {
+		out = append(out, trav.GraphSpec{Tree: t})
+	}
 	// combs: siblings before and after the deep child at every depth, so that a path retained from
 	// one visit is resolved after the walk went on to its siblings and their descendants
 	depth := 6
